@@ -173,13 +173,240 @@ def gen_knot_cases(rng, n_random, which=('py', 'c'), count=None):
     return cases
 
 
+# --------------------------------------------------------------------------
+# call histories on live objects: results are VALUES and functions of the
+# arguments of their own call only
+
+HIST_FNS = {'w': ('gradient', 'kernel'),
+            'c': ('gradient', 'kernel', 'dwdq', 'gradient_h'),
+            'py': ('gradient', 'kernel', 'dwdq', 'gradient_h')}
+GARBAGE = [1e300, -7.25, 3.5e-7]
+
+
+def new_object(kind, name, dim):
+    py = getattr(KM, name)(dim=dim)
+    if kind == 'py':
+        return py
+    if kind == 'c':
+        return getattr(CK, name)(**py.__dict__)
+    return KM.get_compiled_kernel(py)
+
+
+def bits(xs):
+    return [H.fbits(x) for x in xs]
+
+
+def read_result(fn, ret):
+    """the numbers a retained result shows NOW (list of floats)"""
+    if fn == 'gradient':
+        if len(ret) != 3:
+            raise ValueError('gradient result has %d components' % len(ret))
+        return [float(ret[0]), float(ret[1]), float(ret[2])]
+    return [float(ret)]
+
+
+def do_call(kind, obj, call, buf=None):
+    """one call; returns (object to retain, inputs as passed, copy of inputs before).
+    kind w: positions;  kinds c / py: (xij, rij) and, for gradient, an out-buffer
+    (`buf` if given -- re-used by the caller -- else a new one pre-filled with garbage)"""
+    fn, h = call['fn'], call['h']
+    if kind == 'w':
+        a = list(call['xi']) + list(call['xj']) + [h]
+        return getattr(obj, fn)(*a), None, None
+    xij = np.array(call['xij'], dtype=float) if kind == 'c' else list(call['xij'])
+    before = list(call['xij'])
+    r = call['rij']
+    pre = 'py_' if kind == 'c' else ''
+    kw = bool(call.get('kw')) and kind == 'py'
+    if fn == 'dwdq':
+        return (getattr(obj, pre + fn)(rij=r, h=h) if kw else getattr(obj, pre + fn)(r, h)), xij, before
+    if fn in ('kernel', 'gradient_h'):
+        f = getattr(obj, pre + fn)
+        return (f(xij=xij, rij=r, h=h) if kw else f(xij, r, h)), xij, before
+    if buf is None:
+        buf = np.array(GARBAGE) if kind == 'c' else list(GARBAGE)
+    f = getattr(obj, pre + 'gradient')
+    if kw:
+        f(xij=xij, rij=r, h=h, grad=buf)
+    else:
+        f(xij, r, h, buf)
+    return buf, xij, before
+
+
+def fresh_result(kind, name, dim, call):
+    """the same call as the FIRST call on a new object (zeroed out-buffer)"""
+    obj = new_object(kind, name, dim)
+    buf = None
+    if kind != 'w' and call['fn'] == 'gradient':
+        buf = np.zeros(3) if kind == 'c' else [0.0, 0.0, 0.0]
+    c = dict(call, kw=False)
+    ret, _, _ = do_call(kind, obj, c, buf)
+    return read_result(call['fn'], ret)
+
+
+def py_reference(name, dim, call, kind):
+    """the Python class on the separation the call denotes"""
+    py = getattr(KM, name)(dim=dim)
+    if kind == 'w':
+        xi, xj = call['xi'], call['xj']
+        x = [xi[0] - xj[0], xi[1] - xj[1], xi[2] - xj[2]]
+        r = math.sqrt(x[0] * x[0] + x[1] * x[1] + x[2] * x[2])
+    else:
+        x, r = list(call['xij']), call['rij']
+    fn, h = call['fn'], call['h']
+    if fn == 'gradient':
+        g = [0.0, 0.0, 0.0]
+        py.gradient(x, r, h, g)
+        return [float(v) for v in g]
+    if fn == 'dwdq':
+        return [float(py.dwdq(r, h))]
+    return [float(getattr(py, fn)(x, r, h))]
+
+
+def describe(kind, name, dim, call):
+    if kind == 'w':
+        return '%sWrapper(dim=%d).%s(xi=%r, xj=%r, h=%r)' % (name, dim, call['fn'], call['xi'],
+                                                              call['xj'], call['h'])
+    return '%s%s(dim=%d).%s%s(xij=%r, rij=%r, h=%r)' % (
+        'c_kernels.' if kind == 'c' else '', name, dim, 'py_' if kind == 'c' else '', call['fn'],
+        call['xij'], call['rij'], call['h'])
+
+
+def history_case(case, xref=None):
+    """xref: per call, the bits the same call gave in ANOTHER process, where all calls of the
+    run were made in a shuffled order, each first on a new object (None: not available)"""
+    kind, name = case['impl'], case['kernel']
+    dims = case['dims']
+    calls = case['calls']
+    mag = case.get('mag', 1.0)
+    # phase 0 -- references, BEFORE the history starts (nothing else touches the kernel
+    # classes while the history runs)
+    want = [fresh_result(kind, name, dims[c.get('o', 0)], c) for c in calls]
+    ref = [py_reference(name, dims[c.get('o', 0)], c, kind) if kind != 'py' else None for c in calls]
+    facs = [abs(getattr(KM, name)(dim=d).fac) for d in dims]
+    # phase 1 -- the history, uninterrupted
+    objs = [new_object(kind, name, d) for d in dims]
+    shared = [None] * len(objs)       # re-used out-buffer per object (kinds c / py)
+    if case.get('reuse') and kind != 'w':
+        shared = [np.array(GARBAGE) if kind == 'c' else list(GARBAGE) for _ in objs]
+    kept = []                          # (call index, retained object, snapshot)
+    rec = []                           # per call: (now, input after, input before, changed earlier result)
+    for n, call in enumerate(calls):
+        o = call.get('o', 0)
+        buf = shared[o] if call['fn'] == 'gradient' else None
+        ret, xin, before = do_call(kind, objs[o], call, buf)
+        now = read_result(call['fn'], ret)
+        changed = None
+        for (k, r0, snap) in kept:
+            try:
+                cur = read_result(calls[k]['fn'], r0)
+            except Exception as e:      # noqa
+                cur = ['%s: %s' % (type(e).__name__, e)]
+            if bits_or_str(cur) != bits_or_str(snap):
+                changed = (k, snap, cur)
+                break
+        if buf is None:
+            kept.append((n, ret, now))
+        rec.append((now, None if xin is None else [float(v) for v in xin], before, changed))
+    # phase 2 -- the demands, call by call
+    for n, call in enumerate(calls):
+        d = dims[call.get('o', 0)]
+        what = 'call #%d of %d, %s' % (n + 1, len(calls), describe(kind, name, d, call))
+        now, xin, before, changed = rec[n]
+        # (c) inputs untouched
+        if xin is not None and bits(xin) != bits(before):
+            return ('%s leaves its argument xij = %r untouched' % (what, before),
+                    'xij after the call = %r' % (xin,))
+        # (b) a function of its own arguments
+        if bits(now) != bits(want[n]):
+            return ('%s returns what the same call returns as the first call on a new object '
+                    '(zeroed gradient buffer): %r -- results do not depend on earlier calls, on '
+                    'what the buffer held%s' % (what, want[n], ' or on other live objects'
+                                                if len(objs) > 1 else ''),
+                    '%r' % (now,))
+        if xref is not None and xref[n] is not None and bits_or_str(now) != xref[n]:
+            return ('%s returns what the same call returns in another process where the calls of this '
+                    'run are made in a different order, each first on a new object: %r' % (
+                        what, [H.bits2f(t) if t.startswith('x') else t for t in xref[n]]),
+                    '%r' % (now,))
+        # the twins return the numbers of the Python class
+        if kind != 'py':
+            m = mag * facs[call.get('o', 0)] * (1.0 / call['h']) ** d * (
+                1.0 / call['h'] if call['fn'] in ('gradient', 'gradient_h') else 1.0)
+            for a, b in zip(ref[n], now):
+                if not (a == b or abs(a - b) <= 8 * EPS * max(abs(a), abs(b)) + 1e-13 * m):
+                    return ('%s returns the numbers of the Python class: %r' % (what, ref[n]),
+                            '%r' % (now,))
+        # (a) nothing returned earlier has changed
+        if changed is not None:
+            k, snap, cur = changed
+            return ('the result of call #%d of %d, %s, kept by the caller, still reads %r after call '
+                    '#%d (%s)' % (k + 1, len(calls), describe(kind, name, dims[calls[k].get('o', 0)],
+                                                             calls[k]), snap, n + 1,
+                                  describe(kind, name, d, call)),
+                    'it now reads %r' % (cur,))
+    return None
+
+
+def bits_or_str(xs):
+    return [H.fbits(x) if isinstance(x, float) else str(x) for x in xs]
+
+
+def singles_of(cases):
+    return [(ci, n, c['impl'], c['kernel'], c['dims'][call.get('o', 0)], call)
+            for ci, c in enumerate(cases) if c['check'] == 'call-history'
+            for n, call in enumerate(c['calls'])]
+
+
+def ref_worker(infile, outfile):
+    """(other process) every call once, in the order given, each first on a new object"""
+    out = []
+    for (ci, n, kind, name, dim, call) in json.load(open(infile)):
+        try:
+            out.append([ci, n, bits_or_str(fresh_result(kind, name, dim, call))])
+        except Exception as e:      # noqa
+            out.append([ci, n, ['%s: %s' % (type(e).__name__, e)]])
+    json.dump(out, open(outfile, 'w'))
+
+
+def cross_process_refs(cases, seed, work, note=None):
+    """{case index: [bits per call]} from a second process that makes all the calls of `cases`
+    in a shuffled order; {} (with a note) if that process fails"""
+    import subprocess
+    sing = singles_of(cases)
+    if not sing:
+        return {}
+    random.Random(seed * 31 + 5).shuffle(sing)
+    tag = '%d-%d' % (os.getpid(), seed)
+    fin = os.path.join(work, 'c08-singles-%s.json' % tag)
+    fout = os.path.join(work, 'c08-refs-%s.json' % tag)
+    json.dump(sing, open(fin, 'w'))
+    env = dict(os.environ, C08_REF_WORKER='%s::%s' % (fin, fout))
+    try:
+        p = subprocess.run([sys.executable, os.path.abspath(__file__)], env=env, timeout=600,
+                           stdout=subprocess.PIPE, stderr=subprocess.PIPE, text=True, cwd=work)
+        if p.returncode != 0:
+            raise RuntimeError('exit %d: %s' % (p.returncode, p.stderr[-300:]))
+        res = json.load(open(fout))
+    except Exception as e:      # noqa
+        if note is not None:
+            note('cross-process reference not available: %s: %s' % (type(e).__name__, e))
+        return {}
+    out = {}
+    for ci, n, b in res:
+        out.setdefault(ci, {})[n] = b
+    return {ci: [v.get(n) for n in range(len(cases[ci]['calls']))] for ci, v in out.items()}
+
+
 def scale_of(K, h):
     return abs(K.py.fac) * (1.0 / h) ** K.dim
 
 
 def prop_case(case):
-    K = impl(case['kernel'], case['dim'], case['impl'])
     chk = case['check']
+    if chk == 'call-history':
+        return history_case(case, case.get('_xref'))
+    K = impl(case['kernel'], case['dim'], case['impl'])
     h = case.get('h', 1.0)
     sc = scale_of(K, h)
     if chk == 'support':
@@ -437,6 +664,73 @@ def gen_prop_cases(rng, n_h, n_pts, which=('py', 'c')):
     return cases
 
 
+def place(rng, kind, radius, bps, h, where):
+    """arguments of one call at separation class `where`"""
+    d = direction(rng)
+    if where == 'zero':
+        r = 0.0
+    elif where == 'guard':
+        r = rng.choice([1e-12, 5e-13, 2e-12, 1.0000000000000002e-12])
+    elif where == 'knot':
+        b = rng.choice(bps)
+        r = knot_r(b, h)
+        r = b * h if r is None else r
+    elif where == 'beyond':
+        r = radius * h * rng.choice([1 + 1e-9, 1.0 + 2.0 ** -30, 1.5, 4.0, 1e3])
+    else:
+        r = rng.uniform(0.02, radius * 0.98) * h
+    if kind == 'w':
+        xi = [rng.uniform(-1, 1) * h for _ in range(3)]
+        if where == 'zero':
+            return {'xi': xi, 'xj': list(xi)}
+        return {'xi': xi, 'xj': [a - r * x for a, x in zip(xi, d)]}
+    return {'xij': [r * x for x in d], 'rij': r}
+
+
+def gen_history_cases(rng, n_per, kinds=('w', 'c', 'py'), count=None):
+    """histories of 2-8 calls on one (or two interleaved) live objects"""
+    cases = []
+    cfgs = configs()
+    for name, dim in cfgs:
+        radius = float(getattr(KM, name)(dim=dim).radius_scale)
+        bps = breakpoints(radius)
+        mag = 1000.0 if 'Spline' in name else 10.0
+        others = [d for (n2, d) in cfgs if n2 == name and d != dim]
+        for kind in kinds:
+            for j in range(n_per):
+                dims = [dim]
+                if j % 3 == 2:          # a second live object of the class (other dimension if any)
+                    dims.append(rng.choice(others) if others and rng.random() < 0.7 else dim)
+                same_h = rng.random() < 0.5
+                h0 = rng.choice(h_values(rng, 4))
+                if j == 0:
+                    # inside, beyond (stale buffer), inside, r = 0, value: gradient each time
+                    plan = [('gradient', 'in'), ('gradient', 'beyond'), ('gradient', 'in'),
+                            ('gradient', 'zero'), ('kernel', 'in'), ('gradient', 'knot')]
+                else:
+                    plan = []
+                    for _ in range(rng.randint(2, 8)):
+                        fn = 'gradient' if rng.random() < 0.6 else rng.choice(HIST_FNS[kind])
+                        plan.append((fn, rng.choice(['in'] * 4 + ['beyond', 'beyond', 'knot', 'zero',
+                                                                  'guard'])))
+                    if sum(1 for f, _ in plan if f == 'gradient') < 2:
+                        plan += [('gradient', 'in'), ('gradient', 'beyond')]
+                calls = []
+                for fn, where in plan:
+                    h = h0 if same_h else rng.choice(h_values(rng, 4))
+                    c = dict(place(rng, kind, radius, bps, h, where), fn=fn, h=h,
+                             o=rng.randrange(len(dims)))
+                    if kind == 'py' and rng.random() < 0.25:
+                        c['kw'] = True
+                    calls.append(c)
+                    if count is not None:
+                        count('history:%s:%s:%s' % (kind, fn, where))
+                cases.append({'kernel': name, 'dim': dim, 'dims': dims, 'impl': kind,
+                              'check': 'call-history', 'calls': calls, 'mag': mag,
+                              'reuse': kind != 'w' and rng.random() < 0.5})
+    return cases
+
+
 def corpus():
     out = []
     for d in (1, 2, 3):
@@ -458,6 +752,20 @@ def corpus():
                 'h': 0.5, 'r': 1.0, 'dir': [0.0, 1.0, 0.0]})
     out.append({'kernel': 'QuinticSpline', 'dim': 3, 'impl': 'py', 'check': 'normalised',
                 'h': 1.0})
+    # seed3-B: Wrapper.gradient returned a view of the wrapper's scratch member, so a result kept
+    # by the caller was overwritten by the next call; seed2-A: nothing stored outside the support
+    for name, d in (('CubicSpline', 1), ('Gaussian', 3), ('WendlandQuinticC6_1D', 1)):
+        out.append({'kernel': name, 'dim': d, 'dims': [d], 'impl': 'w', 'check': 'call-history',
+                    'mag': 1000.0, 'reuse': False, 'calls': [
+                        {'fn': 'gradient', 'xi': [0.3, 0.0, 0.0], 'xj': [0.0, 0.0, 0.0], 'h': 1.0, 'o': 0},
+                        {'fn': 'gradient', 'xi': [0.5, 0.25, 0.0], 'xj': [0.0, 0.5, 0.125], 'h': 0.5, 'o': 0},
+                        {'fn': 'gradient', 'xi': [3.5, 0.0, 0.0], 'xj': [0.0, 0.0, 0.0], 'h': 1.0, 'o': 0},
+                        {'fn': 'kernel', 'xi': [0.3, 0.0, 0.0], 'xj': [0.0, 0.0, 0.0], 'h': 1.0, 'o': 0}]})
+    for kind in ('c', 'py'):
+        out.append({'kernel': 'WendlandQuinticC6_1D', 'dim': 1, 'dims': [1], 'impl': kind,
+                    'check': 'call-history', 'mag': 10.0, 'reuse': True, 'calls': [
+                        {'fn': 'gradient', 'xij': [0.3, 0.0, 0.0], 'rij': 0.3, 'h': 1.0, 'o': 0},
+                        {'fn': 'gradient', 'xij': [2.5, 0.0, 0.0], 'rij': 2.5, 'h': 1.0, 'o': 0}]})
     return out
 
 
@@ -478,7 +786,7 @@ def run_prop_cases(cases, R):
             _PER_KEY[key] = _PER_KEY.get(key, 0) + 1
             R.count('fail:' + key)
             if _PER_KEY[key] <= 4:      # keep room for other classes of failure
-                R.prop_fail(key, c, res[0], res[1])
+                R.prop_fail(key, {k: v for k, v in c.items() if k != '_xref'}, res[0], res[1])
     return nfail
 
 
@@ -588,6 +896,74 @@ def check_model(points, R, sample_tag=0):
                 break
 
 
+def check_wrapper_model(R, rng, n_per):
+    """Gen/KernelWrapper.lean on doubles over whole histories vs a real wrapper"""
+    R.d['wrapper_code'] = H.run_model('C08', ['wcode'])[0]
+    hists = [c for c in gen_history_cases(rng, n_per, kinds=('w',)) if len(c['dims']) == 1]
+    lines = []
+    for c in hists:
+        for call in c['calls']:
+            lines.append('wargs xi=%s xj=%s' % (H.flist(call['xi']), H.flist(call['xj'])))
+    out = H.run_model('C08', lines)
+    if len(out) != len(lines):
+        raise SystemExit('model driver answered %d lines for %d' % (len(out), len(lines)))
+    k = 0
+    hl = []
+    for c in hists:
+        ck = new_object('c', c['kernel'], c['dim'])
+        tab, cl = [], []
+        for call in c['calls']:
+            kv = parse_kv(out[k])
+            k += 1
+            x = [H.bits2f(t) for t in kv['gx' if call['fn'] == 'gradient' else 'kx'].split(',')]
+            r = H.bits2f(kv['gr' if call['fn'] == 'gradient' else 'kr'])
+            g = np.zeros(3)
+            try:
+                w = ck.py_kernel(np.array(x), r, call['h'])
+                ck.py_gradient(np.array(x), r, call['h'], g)
+            except Exception as e:      # noqa
+                R.disagree({'case': c}, 'kernel object evaluates', '%s: %s' % (type(e).__name__, e),
+                           'compiled kernel class')
+                w = float('nan')
+            tab.append('%s:%s:%s:%s:%s' % (H.flist(x), H.fbits(r), H.fbits(call['h']), H.fbits(w),
+                                           H.flist(g)))
+            cl.append('%s:%s:%s:%s' % ('g' if call['fn'] == 'gradient' else 'k',
+                                       H.flist(call['xi']), H.flist(call['xj']), H.fbits(call['h'])))
+        hl.append('whist calls=%s tab=%s' % (';'.join(cl), ';'.join(tab)))
+    hout = H.run_model('C08', hl)
+    if len(hout) != len(hl):
+        raise SystemExit('model driver answered %d lines for %d' % (len(hout), len(hl)))
+    for c, ln in zip(hists, hout):
+        try:
+            wr = new_object('w', c['kernel'], c['dim'])
+            kept, now = [], []
+            for call in c['calls']:
+                ret, _, _ = do_call('w', wr, call)
+                kept.append(ret)
+                now.append(bits(read_result(call['fn'], ret)))
+            end = [bits(read_result(call['fn'], r0)) for call, r0 in zip(c['calls'], kept)]
+        except Exception as e:      # noqa
+            R.disagree({'case': c}, ln, '%s: %s' % (type(e).__name__, e), 'Wrapper history')
+            continue
+        if not ln.startswith('now='):
+            R.disagree({'case': c}, ln, now, 'Wrapper history')
+            continue
+        kv = parse_kv(ln)
+        mnow = [t.split(',') for t in kv['now'].split(';')]
+        mend = [t.split(',') for t in kv['end'].split(';')]
+        if mnow != now:
+            R.disagree({'case': c}, mnow, now, 'Wrapper results as read at their return')
+        if mend != end:
+            R.disagree({'case': c}, mend, end, 'Wrapper results as read after the last call')
+        R.count('wrapper-model:histories')
+        R.count('wrapper-model:calls', len(c['calls']))
+        R.case('wrapper/%s/%d/%r' % (c['kernel'], c['dim'], c['calls']),
+               any(v not in ('x0000000000000000', 'x8000000000000000') for row in now for v in row),
+               {'wrapper_history': c, 'model_end': mend, 'impl_end': end}
+               if R.d['distribution'].get('wrapper-model:histories', 0) == 1 else None)
+        R.d['traces_validated_against_impl'] += 1
+
+
 def check_tables(R):
     """log the table checks the theorems discharge (evidence only)"""
     names = H.run_model('C08', ['list'])[0].split(',')
@@ -623,7 +999,20 @@ def check_mako(R, work):
     return False
 
 
+def run_history_cases(cases, R, seed, work):
+    refs = cross_process_refs(cases, seed, work, R.note)
+    R.count('history:cross-process-references', sum(len(v) for v in refs.values()))
+    for ci, c in enumerate(cases):
+        if ci in refs:
+            c['_xref'] = refs[ci]
+    return run_prop_cases(cases, R)
+
+
 def main():
+    if os.environ.get('C08_REF_WORKER'):
+        fin, fout = os.environ['C08_REF_WORKER'].split('::')
+        ref_worker(fin, fout)
+        return
     a = H.args()
     R = H.Result(
         'model cases = (kernel table, r, h, direction): all 21 class x dimension tables, h over 12 '
@@ -631,15 +1020,23 @@ def main():
         'every breakpoint and the edge, r around the 1e-12 guard; distinct = distinct '
         '(kernel, dim, r, h); non-trivial = 0 < r/h < radius_scale.  Oracle cases (incl. the four '
         'functions exactly on every knot, <fn>-at-knot) are counted '
-        'per check in the distribution (oracle:<check>:<impl>).')
+        'per check in the distribution (oracle:<check>:<impl>); call-history = 2-8 calls (gradient, '
+        'kernel, dwdq, gradient_h; inside / beyond the support / on a knot / r = 0 / at the guard; one '
+        'or varying h) on one or two live objects (w = Wrapper, c = compiled class, py = Python class), '
+        'history:<kind>:<fn>:<where> counts the calls.  Wrapper-model cases = whole histories run through '
+        'Gen/KernelWrapper.lean on doubles (wrapper-model:*), non-trivial = some non-zero result.')
     if a.replay:
         rp = json.load(open(a.replay))
         case = rp['case']
+        if case.get('check') == 'call-history':
+            xr = cross_process_refs([case], 1, a.work)
+            if 0 in xr:
+                case = dict(case, _xref=xr[0])
         try:
             res = prop_case(case)
         except Exception as e:      # noqa
             res = ('the kernel evaluates without raising', '%s: %s' % (type(e).__name__, e))
-        print('case    :', json.dumps(case))
+        print('case    :', json.dumps({k: v for k, v in case.items() if k != '_xref'}))
         if res is None:
             print('holds on the current tree')
             sys.exit(0)
@@ -648,18 +1045,22 @@ def main():
         sys.exit(1)
     quick = a.tier == 'quick'
     rng = random.Random(a.seed * 7919 + 8)
-    run_prop_cases(corpus(), R)
+    run_history_cases(corpus(), R, a.seed + 1, a.work)
     R.count('corpus', len(corpus()))
     check_tables(R)
     same = check_mako(R, a.work)
     check_model(model_points(rng, 10 if quick else 24, 40 if quick else 120), R)
     run_prop_cases(gen_prop_cases(rng, 8 if quick else 24, 32 if quick else 96), R)
     run_prop_cases(gen_knot_cases(rng, 6 if quick else 40, count=R.count), R)
+    check_wrapper_model(R, rng, 6 if quick else 30)
+    run_history_cases(gen_history_cases(rng, 12 if quick else 60, count=R.count), R, a.seed + 2,
+                      a.work)
     if a.broken or R.d['disagreements'] or same is False:
         rng2 = random.Random(a.seed + 12345)
         before = len(R.d['property_failures'])
-        extra = gen_prop_cases(rng2, 12, 48) + gen_knot_cases(rng2, 60, count=R.count)
-        run_prop_cases(extra, R)
+        extra = (gen_prop_cases(rng2, 12, 48) + gen_knot_cases(rng2, 60, count=R.count) +
+                 gen_history_cases(rng2, 40, count=R.count))
+        run_history_cases(extra, R, a.seed + 3, a.work)
         R.d['search'] = {'extra_cases': len(extra),
                          'found': len(R.d['property_failures']) - before}
     R.write(a.out)
